@@ -132,6 +132,10 @@ fn call(st: &mut State, entry: &str, input: &[u8], cmd: &Value) -> &'static str 
                 for sel in [0u32, 1, 0xFFFFFFFF, 0x12345678] {
                     let _ = s.find_node(sel);
                 }
+                // and the selectors the undamaged package carries (nodes and aliases)
+                for sel in cmd["selectors"].as_array().cloned().unwrap_or_default() {
+                    let _ = s.find_node(get_w32(&sel));
+                }
                 "value"
             }
             None => "fail",
